@@ -55,7 +55,7 @@ def run(ck):
                 warnings.simplefilter("ignore")
                 f = construct(app, env)
             ev["res"] = "ok"
-            ev["out"] = term_io.export(f)
+            ev["out"] = term_io.export_result(f)
             ev["rty"] = term_io.export_type(f.get_type())
             n_ok += 1
             ck.nontrivial(app_shape(app))
